@@ -120,8 +120,13 @@ impl Registry {
         let mut ops = Vec::new();
         crate::ops_fixed::register(&mut ops);
         crate::ops_generic::register(&mut ops);
-        crate::ops_spell::register(&mut ops);
+        // under Miri building thousands of closures takes minutes: the spelling table is only
+        // registered when the job asks for it
+        if !cfg!(miri) || std::env::var("SPVERIF_MIRI_SPELL").is_ok() {
+            crate::ops_spell::register(&mut ops);
+        }
         crate::ops_misc::register(&mut ops);
+        crate::ops_cat::register(&mut ops);
         // names must be unique
         let mut names = std::collections::BTreeSet::new();
         for o in &ops {
